@@ -378,7 +378,11 @@ func (r *renderer) expr(n *Node) {
 			r.sp()
 			r.expr(n.Sub[i])
 			r.sp()
-			r.t("=")
+			if r.l.Mode == 1 {
+				r.t(":") // spec.md: "=" or ":" between key and value
+			} else {
+				r.t("=")
+			}
 			r.sp()
 			// a heredoc ends with a newline, which separates items here: anything that continues
 			// after it must be inside parentheses
